@@ -144,6 +144,20 @@ def candidates(rng, sz):
             vs.append(variant("FixedTuple", "tuple", [field("u8")], ser=rng.choice([[], ["ft", "f"]])))
         cands.append(enum(did, vs, prefix=rng.choice([None, None, "p:", "é"]), style=rng.choice(["none", "snake_case"])))
         did += 1
+    # placeholders of a struct-like variant may name constants of the surrounding scope (format strings capture them): on their own, next to
+    # a real field, and as a width parameter.  The record lists them after the real fields with `scope` set; they are not part of the enum.
+    def scoped(name, ty):
+        f = field(ty, name)
+        f["scope"] = True
+        return f
+    v1 = variant("Release", "named", [field("String", "notes"), scoped("VERSION", "u16")], ts="v{VERSION}")
+    v1["ph"], v1["vals"] = [dict(f=2, spec="")], [['String::from("n")', "VERSION"], ['String::new()', "VERSION"]]
+    v2 = variant("Tagged", "named", [field("String", "tag"), scoped("VERSION", "u16"), scoped("WIDTH", "usize")], ts="{{{tag:>WIDTH$}}}/{VERSION:03}-{tag}")
+    v2["ph"] = [dict(f=1, spec=">WIDTH$", tmpl=">@$", param=3), dict(f=2, spec="03"), dict(f=1, spec="")]
+    v2["vals"] = [['String::from("rc")', "VERSION", "WIDTH"], ['String::from("a long tag")', "VERSION", "WIDTH"]]
+    E = enum(did, [v1, v2, variant("Plain")])
+    E["extra_items"] = "pub const VERSION: u16 = 3;\npub const WIDTH: usize = 6;\n"
+    cands.append(E); did += 1
     # keys meant for EnumString (`default_with` on a variant) change nothing for Display: the variant keeps its fixed name
     cands.append(enum(did, [variant("Timeout", "tuple", [field("u8")], dwith="dw_u8"), variant("OffWhite", "tuple", [field("String")], dwith="dw_string", ser=["ow", "off-white"]),
                             variant("Plain")], prefix="colour/", style="snake_case")); did += 1
